@@ -49,7 +49,7 @@ fn extra_line(rng: &mut Rng, h: &[Op], p: usize) -> (Vec<u8>, &'static str, Vec<
         let n = rng.range(385, 460);
         (0..n).map(|_| armor_char(rng.below(64) as u8)).collect()
     };
-    match rng.below(13) {
+    match rng.below(14) {
         10 => {
             // irregular numbering with a valid checksum: fragment 0, count 0, number beyond count
             let (n, k) = *rng.pick(&[(2u8, 0u8), (3, 0), (1, 0), (0, 1), (0, 0), (0, 2), (1, 2), (1, 3), (2, 3), (2, 255), (255, 0)]);
@@ -73,6 +73,25 @@ fn extra_line(rng: &mut Rng, h: &[Op], p: usize) -> (Vec<u8>, &'static str, Vec<
             };
             let p = big(rng);
             (make_line(ADDR, n, k, id, b"A", &p, 0), "oversize-out-of-sequence-fragment", vec![Fault::RewriteHeader])
+        }
+        13 => {
+            // an over-long fragment that *would* continue (or open) the group, but is rejected
+            // for its form (fill count out of range) or for its checksum
+            let (n, k, id) = match recent.and_then(|l| l.sent.as_ref()) {
+                Some(s) if s.k < s.n && rng.ratio(2, 3) => (s.n, s.k + 1, s.id),
+                Some(s) => (s.n.max(2), 1, s.id),
+                None => (2, 1, Some(rng.below(10) as u8)),
+            };
+            let p = big(rng);
+            let line = make_line(ADDR, n, k, id, b"A", &p, 0);
+            let lx = lex(&line).unwrap();
+            if rng.ratio(1, 2) {
+                let bad = (lx.value.unwrap() + 1 + rng.below(255) as u32) % 256;
+                (with_checksum(&line, &lx, bad, 2, true), "oversize-bad-checksum-fragment", vec![Fault::BadChecksum])
+            } else {
+                let fill = *rng.pick(&[&b"6"[..], b"7", b"9", b"16", b""]);
+                (rewrite_fields(&line, &lx, &[(6, fill.to_vec())]), "oversize-malformed-fragment", vec![Fault::Truncate])
+            }
         }
         12 => {
             // an over-long unfragmented sentence
@@ -295,7 +314,9 @@ fn judge_on(sc: &Scenario, build: Build, st: &mut Option<&mut Stats>) -> Option<
             let class: &'static str = match &k_outcome {
                 Some(Outcome::ErrNmea(_)) => "rejected(form-or-sequencing)",
                 Some(Outcome::ErrChecksum { .. }) => "rejected(checksum)",
-                Some(Outcome::Complete(s, _)) if s.n == 1 => "unfragmented",
+                // an unfragmented sentence is one that announces a single fragment, whatever the
+                // parser makes of it
+                Some(Outcome::Complete(s, _)) | Some(Outcome::Incomplete(s, _)) if s.n == 1 => "unfragmented",
                 _ => {
                     if let Some(st) = st.as_deref_mut() {
                         st.premise_failed += 1;
@@ -312,7 +333,7 @@ fn judge_on(sc: &Scenario, build: Build, st: &mut Option<&mut Stats>) -> Option<
                 let (kb, _) = exec(build, sc.nodes, &kops, |_, _| true);
                 let in_class = match kb.last().map(|(_, o)| o) {
                     Some(Outcome::ErrNmea(_)) | Some(Outcome::ErrChecksum { .. }) => true,
-                    Some(Outcome::Complete(s, _)) => s.n == 1,
+                    Some(Outcome::Complete(s, _)) | Some(Outcome::Incomplete(s, _)) => s.n == 1,
                     _ => false,
                 };
                 if !in_class {
@@ -402,6 +423,19 @@ fn judge_on(sc: &Scenario, build: Build, st: &mut Option<&mut Stats>) -> Option<
                         probes.push(l);
                     }
                 }
+            }
+            // and the irregular "1 of 0" sentence, which a parser with no open group answers with
+            // whatever its buffer holds: it exposes payload left behind where none should be
+            let mut ids_seen: Vec<Option<u8>> = vec![None];
+            for (_, o) in a.iter().chain(b.iter()) {
+                if let Some(sn) = o.accepted() {
+                    if !ids_seen.contains(&sn.id) && ids_seen.len() < 3 {
+                        ids_seen.push(sn.id);
+                    }
+                }
+            }
+            for id in ids_seen {
+                probes.push(make_line(ADDR, 0, 1, id, b"A", b"Q", 0));
             }
             if !probes.is_empty() {
                 let mut pa: Vec<Op> = sc.ops.clone();
